@@ -335,15 +335,23 @@ fn c08_dec_literals_behave_like_their_value() {
     core::mem::forget((a, b, c, d, z, x));
 }
 
-//@ tier: attempt
-//@ funcs: <Num as Ord>::cmp (BigInt/Float arms), <Num as PartialEq>::eq (BigInt/Float arms), <Num as Hash>::hash (BigInt arm), BigInt::to_f64
-//@ bounds: a big integer holding any value of the i8 range (a SMALL value stored as a big integer; the i64 range ran out of memory at 12 GB in BigInt::to_f64) vs all non-NaN f64, both argument orders
-//@ assume: no NaN
+/// Model of `BigInt::to_f64` on values of the i64 range: the nearest double of the value (Rust's
+/// `as f64`; exact for |v| <= 2^53). The real conversion exhausts 12 GB in CBMC.
+fn to_f64_model(b: &BigInt) -> Option<f64> {
+    b.to_i64().map(|v| v as f64)
+}
+
+//@ tier: quick
+//@ funcs: <Num as Ord>::cmp (BigInt/Float arms), <Num as PartialEq>::eq (BigInt/Float arms), <Num as Hash>::hash (BigInt arm)
+//@ bounds: a big integer holding any value with |v| <= 2^53 (a SMALL value stored as a big integer) vs all non-NaN f64, both argument orders
+//@ assume: no NaN; |int| <= 2^53 (the property's precondition); <BigInt as ToPrimitive>::to_f64 replaced by the model `to_i64() as f64` (the real conversion does not decide)
 //@ asserts: cmp is the exact real comparison of v and f, antisymmetric; == exactly when Equal; equal => identical hash stream -- a big-integer 1 and the float 1.0 are the same key
 #[kani::proof]
 #[kani::unwind(42)]
+#[kani::stub(<BigInt as num_traits::ToPrimitive>::to_f64, to_f64_model)]
 fn c08_bigint_float_cmp_exact() {
-    let v: i8 = kani::any();
+    let v: i64 = kani::any();
+    kani::assume(-(P53 as i64) <= v && v <= P53 as i64);
     let f = any_float_no_nan();
     let (x, y) = (Num::big_int(BigInt::from(v)), Num::Float(f));
     let want = m_float(v as f64, f);
